@@ -64,3 +64,35 @@ Proof.
   apply negb_true_iff in H1. apply String.eqb_neq in H1.
   exact (roundtrip_field gen_schema ty nm omit v H1 H2 Hwf).
 Qed.
+
+(* ---------- containers with hand-written MarshalXML ---------- *)
+From Verif Require Import Codec.ProofsBlock Codec.ProofsContainers.
+
+Definition d_of (T : string) : typedef :=
+  match lookup_type gen_schema T with
+  | Some d => d
+  | None => {| t_name := ""; t_anon := false; t_under := UType TInt; t_methods := [] |}
+  end.
+
+Lemma containers_static :
+  lookup_type gen_schema "OSM" = Some (d_of "OSM") /\ lookup_type gen_schema "Change" = Some (d_of "Change")
+  /\ osm_top_static gen_schema (d_of "OSM") = true
+  /\ osm_static gen_schema 15 (d_of "OSM") = true /\ osm_static gen_schema 13 (d_of "OSM") = true
+  /\ change_static gen_schema (d_of "Change") = true.
+Proof. repeat split; vm_compute; reflexivity. Qed.
+
+Theorem roundtrip_OSM : forall v,
+  wfb gen_schema "OSM" v = true ->
+  exists e, encode1 gen_schema "OSM" v = Ok e /\ decode gen_schema "OSM" e = Ok v /\ xname e = "osm".
+Proof.
+  intros v Hwf. destruct containers_static as (H1 & H2 & H3 & H4 & H5 & H6).
+  exact (roundtrip_osm gen_schema (d_of "OSM") v H1 H3 H4 Hwf).
+Qed.
+
+Theorem roundtrip_Change : forall v,
+  wfb gen_schema "Change" v = true ->
+  exists e, encode1 gen_schema "Change" v = Ok e /\ decode gen_schema "Change" e = Ok v /\ xname e = "osmChange".
+Proof.
+  intros v Hwf. destruct containers_static as (H1 & H2 & H3 & H4 & H5 & H6).
+  exact (roundtrip_change gen_schema (d_of "Change") (d_of "OSM") v H2 H6 H1 H3 H5 Hwf).
+Qed.
